@@ -8,6 +8,7 @@ import (
 	"sort"
 	"strings"
 
+	"wvsa/internal/facts"
 	"wvsa/internal/load"
 	"wvsa/internal/report"
 )
@@ -36,9 +37,10 @@ func (c *Ctx) Node() *load.Program {
 	if c.node == nil && c.nodeErr == nil {
 		c.node, c.nodeErr = load.Load(load.Options{
 			Dir: filepath.Join(c.Repo, "node"), Patterns: []string{"./pkg/...", "./cmd/..."},
-			Overlay: c.Overlay, MinRoots: 31,
+			Overlay: c.Overlay, MinRoots: 31, Reviewed: reviewedFunc(),
 		})
 		if c.nodeErr == nil {
+			noteInline(c, c.node)
 			c.R.Count("node.root_packages", len(c.node.Roots))
 			c.R.Count("node.packages_visited", c.node.Visited)
 			c.R.Note("node load: %d roots, %d packages visited, error packages %v, %.1fs", len(c.node.Roots), c.node.Visited, c.node.ErrPkgs, c.node.LoadTime.Seconds())
@@ -56,9 +58,10 @@ func (c *Ctx) Explorer() *load.Program {
 		c.explorer, c.expErr = load.Load(load.Options{
 			Dir:      filepath.Join(c.Repo, "explorer-backend"),
 			Patterns: []string{"./...", NodeMod + "/pkg/vaa", NodeMod + "/pkg/processor"},
-			Overlay:  c.Overlay, MinRoots: 12,
+			Overlay:  c.Overlay, MinRoots: 12, Reviewed: reviewedFunc(),
 		})
 		if c.expErr == nil {
+			noteInline(c, c.explorer)
 			c.R.Count("explorer.root_packages", len(c.explorer.Roots))
 			c.R.Count("explorer.packages_visited", c.explorer.Visited)
 			c.R.Note("explorer load: %d roots, %d packages visited, error packages %v, %.1fs", len(c.explorer.Roots), c.explorer.Visited, c.explorer.ErrPkgs, c.explorer.LoadTime.Seconds())
@@ -122,4 +125,26 @@ func IDs() []string {
 // rel makes positions relative to the repository root for stable, readable reports.
 func (c *Ctx) rel(pos string) string {
 	return strings.TrimPrefix(pos, strings.TrimSuffix(c.Repo, "/")+"/")
+}
+
+// reviewedFunc: membership in the reviewed tree's function list (nil when no list is available,
+// which switches helper normalisation off).
+func reviewedFunc() func(string) bool {
+	if len(facts.PinnedFuncs) == 0 {
+		return nil
+	}
+	return func(name string) bool { return facts.PinnedFuncs[name] }
+}
+
+func noteInline(c *Ctx, p *load.Program) {
+	if len(p.InlinedSites) > 0 {
+		c.R.Note("helper normalisation: %d call site(s) of functions absent from the reviewed tree were inlined before analysis: %s", len(p.InlinedSites), strings.Join(p.InlinedSites, "; "))
+		c.R.Count("inlined_call_sites", len(p.InlinedSites))
+	}
+	if len(p.InlineSkipped) > 0 {
+		c.R.Note("helper normalisation left %d call site(s) alone: %s", len(p.InlineSkipped), strings.Join(p.InlineSkipped, "; "))
+	}
+	if p.InlineNote != "" {
+		c.R.Note("%s", p.InlineNote)
+	}
 }
